@@ -71,9 +71,11 @@ def _run(spec, outs, k, retain, vmap_bad=False):
 def _obs_sweeps(ev, m, k, retain, label):
     sw = sweeps(ev)
     exp = expected_blocks(m, k)
-    obs = [Ob(f"{label}_sweep_row_blocks", [s[0] for s in sw] == exp),
-           Ob(f"{label}_vmap_iff_block_has_more_than_one_row", all(s[1] == (s[0] > 1) for s in sw)),
-           Ob(f"{label}_only_last_sweep_uses_callers_retain_graph", [s[2] for s in sw] == [True] * (len(sw) - 1) + [retain])]
+    # the property fixes the NUMBER of sweeps and their maximal size, not the order of the blocks
+    k_eff = m if k is None else k
+    obs = [Ob(f"{label}_sweep_row_blocks", len(sw) == len(exp) and all(1 <= s[0] <= k_eff for s in sw) and sum(s[0] for s in sw) == m),
+           Ob(f"{label}_vmap_iff_block_has_more_than_one_row", all(s[1] == (s[0] > 1) for s in sw))]
+    # (which sweeps retain the graph is an implementation matter; its observable consequence - what is freed afterwards - is C13's subject)
     return obs
 
 
@@ -146,9 +148,9 @@ def case_mtl(sp, tier):
         return dict(kind="chunking", spec=spec_json(spec), losses=[f"loss{t}" for t in range(n_tasks)], features=feats, tasks_params=tasks_params,
                     shared_params=["p0", "p1"], chunk=k, retain_graph=retain, rows=n_tasks, jac={}, mode="mtl")
     exp = expected_blocks(n_tasks, k)
-    obs = [Ob("mtl_sweep_row_blocks", [s[0] for s in sw] == exp, cex),
-           Ob("mtl_vmap_iff_block_has_more_than_one_row", all(s[1] == (s[0] > 1) for s in sw), cex),
-           Ob("mtl_only_last_sweep_uses_callers_retain_graph", [s[2] for s in sw] == [True] * (len(sw) - 1) + [retain], cex)]
+    k_eff = n_tasks if k is None else k
+    obs = [Ob("mtl_sweep_row_blocks", len(sw) == len(exp) and all(1 <= s[0] <= k_eff for s in sw) and sum(s[0] for s in sw) == n_tasks, cex),
+           Ob("mtl_vmap_iff_block_has_more_than_one_row", all(s[1] == (s[0] > 1) for s in sw), cex)]
     prog0, A0, _ = run(None)
     obs.append(Ob("mtl_same_matrix_for_every_chunk_size", mat_eq(rows_of(A.seen[0]), rows_of(A0.seen[0])), cex))
     for n in prog.leaf_names():
